@@ -4,6 +4,7 @@ package command
 
 import (
 	"context"
+	"errors"
 	"time"
 
 	"github.com/v-byte-cpu/sx/command/log"
@@ -27,4 +28,64 @@ func VerifC16StartScanEngine(ctx context.Context, engine scan.EngineResulter, lo
 // VerifC16DefaultExitDelay returns the exit delay of a configuration built without withExitDelay.
 func VerifC16DefaultExitDelay() time.Duration {
 	return newEngineConfig().exitDelay
+}
+
+// VerifC16Commands lists the scan commands VerifC16ParsedExitDelay knows.
+var VerifC16Commands = []string{"arp", "icmp", "tcp", "tcp syn", "tcp fin", "tcp null", "tcp xmas", "udp",
+	"socks", "docker", "elastic"}
+
+// VerifC16ParsedExitDelay does what a command's RunE does with its options up to the point where
+// the engine configuration is built: the command's own flag set parses args, parseRawOptions runs,
+// and the value that the command then hands to withExitDelay (<opts>.exitDelay) is returned.
+func VerifC16ParsedExitDelay(name string, args []string) (time.Duration, error) {
+	type parsed struct {
+		flags func([]string) error
+		raw   func() error
+		delay func() time.Duration
+	}
+	var p parsed
+	switch name {
+	case "arp":
+		c := newARPCmd()
+		p = parsed{c.cmd.ParseFlags, c.opts.parseRawOptions, func() time.Duration { return c.opts.exitDelay }}
+	case "icmp":
+		c := newICMPCmd()
+		p = parsed{c.cmd.ParseFlags, c.opts.parseRawOptions, func() time.Duration { return c.opts.exitDelay }}
+	case "tcp":
+		c := newTCPFlagsCmd()
+		p = parsed{c.cmd.ParseFlags, c.opts.parseRawOptions, func() time.Duration { return c.opts.exitDelay }}
+	case "tcp syn":
+		c := newTCPSYNCmd()
+		p = parsed{c.cmd.ParseFlags, c.opts.parseRawOptions, func() time.Duration { return c.opts.exitDelay }}
+	case "tcp fin":
+		c := newTCPFINCmd()
+		p = parsed{c.cmd.ParseFlags, c.opts.parseRawOptions, func() time.Duration { return c.opts.exitDelay }}
+	case "tcp null":
+		c := newTCPNULLCmd()
+		p = parsed{c.cmd.ParseFlags, c.opts.parseRawOptions, func() time.Duration { return c.opts.exitDelay }}
+	case "tcp xmas":
+		c := newTCPXmasCmd()
+		p = parsed{c.cmd.ParseFlags, c.opts.parseRawOptions, func() time.Duration { return c.opts.exitDelay }}
+	case "udp":
+		c := newUDPCmd()
+		p = parsed{c.cmd.ParseFlags, c.opts.parseRawOptions, func() time.Duration { return c.opts.exitDelay }}
+	case "socks":
+		c := newSocksCmd()
+		p = parsed{c.cmd.ParseFlags, c.opts.parseRawOptions, func() time.Duration { return c.opts.exitDelay }}
+	case "docker":
+		c := newDockerCmd()
+		p = parsed{c.cmd.ParseFlags, c.opts.parseRawOptions, func() time.Duration { return c.opts.exitDelay }}
+	case "elastic":
+		c := newElasticCmd()
+		p = parsed{c.cmd.ParseFlags, c.opts.parseRawOptions, func() time.Duration { return c.opts.exitDelay }}
+	default:
+		return 0, errors.New("unknown command " + name)
+	}
+	if err := p.flags(args); err != nil {
+		return 0, err
+	}
+	if err := p.raw(); err != nil {
+		return 0, err
+	}
+	return p.delay(), nil
 }
